@@ -5,8 +5,9 @@ C=${1:-$(git -C /repo rev-parse HEAD)}
 T=/var/tmp/testtree
 cd $T/src && git checkout -q --detach $C || exit 2
 echo "commit $C" > $T/last.log
+cmake $T/bld > $T/last_cfg.log 2>&1   # explicit re-configure: parallel generate_* tests race on it otherwise
 ( time nice -n 5 cmake --build $T/bld -j 12 ) > $T/last_build.log 2>&1; echo "build rc=$?" >> $T/last.log
-( time ctest --test-dir $T/bld -j 12 --timeout 900 ) > $T/last_ctest.log 2>&1
+( time ctest --test-dir $T/bld -j 12 --timeout 2400 ) > $T/last_ctest.log 2>&1
 python3 - <<PY >> $T/last.log
 import json,re,sys
 sys.path.insert(0,'/verif/tools')
